@@ -1,9 +1,13 @@
 package checks
 
 import (
+	"bytes"
 	"fmt"
 	"sort"
 	"strings"
+
+	"github.com/titpetric/vuego"
+	"golang.org/x/net/html"
 
 	"verif/engine/core"
 	"verif/engine/htmlcmp"
@@ -13,16 +17,21 @@ import (
 // bracketed attributes are literal.
 
 type c14Case struct {
-	TitleS string `json:"ts"` // none | static | interp
-	TitleB string `json:"tb"` // none | <truth value name> | vbind
-	ClassS bool   `json:"cs"`
-	ClassB string `json:"cb"` // none | str | obj1 | obj2 | obj3
-	StyleS bool   `json:"ss"`
-	StyleB string `json:"sb"` // none | obj1 | obj2 | str
-	Show   string `json:"show"`
-	Dir    string `json:"dir"`
-	Brk    string `json:"brk"`
-	Order  string `json:"order"` // sf (static first) | bf
+	// reuse part: one element evaluated several times with different values
+	Part   string   `json:"part,omitempty"` // "" (element) | reuse
+	Form   string   `json:"form,omitempty"`
+	Ctx    string   `json:"ctx,omitempty"`
+	Vals   []string `json:"vals,omitempty"`
+	TitleS string   `json:"ts"` // none | static | interp
+	TitleB string   `json:"tb"` // none | <truth value name> | vbind
+	ClassS bool     `json:"cs"`
+	ClassB string   `json:"cb"` // none | str | obj1 | obj2 | obj3
+	StyleS bool     `json:"ss"`
+	StyleB string   `json:"sb"` // none | obj1 | obj2 | str
+	Show   string   `json:"show"`
+	Dir    string   `json:"dir"`
+	Brk    string   `json:"brk"`
+	Order  string   `json:"order"` // sf (static first) | bf
 }
 
 func (c *c14Case) Key() string { return core.KeyOf(c) }
@@ -168,7 +177,157 @@ func parseStyle(s string) map[string]string {
 	return m
 }
 
+// --- reuse part
+
+var c14Forms = map[string]string{
+	"show-style":   `<p id="e" style="color: red" v-show="v.on">k</p>`,
+	"show-nostyle": `<p id="e" v-show="v.on">k</p>`,
+	"show-bstyle":  `<p id="e" style="margin: 0" :style="{color: v.c}" v-show="v.on">k</p>`,
+	"title":        `<p id="e" :title="v.t" class="s">k</p>`,
+	"title-static": `<p id="e" title="a{{ v.t }}b">k</p>`,
+	"class-obj":    `<p id="e" class="s" :class="{on: v.on, off: v.t}">k</p>`,
+	"class-str":    `<p id="e" class="s" :class="v.c">k</p>`,
+	"style-obj":    `<p id="e" style="margin: 0; color: black" :style="{color: v.c}">k</p>`,
+	"vif-show":     `<p id="e" v-if="v.c" style="top: 0" v-show="v.on" :title="v.t">k</p>`,
+	"else-show":    `<i v-if="v.none">n</i><p id="e" v-else style="top: 0" v-show="v.on" :class="v.c">k</p>`,
+	"html-show":    `<p id="e" style="top: 0" v-show="v.on" v-html="v.c"></p>`,
+	"text-title":   `<p id="e" :title="v.t" v-text="v.c" style="top: 0" v-show="v.on"></p>`,
+	"data-bool":    `<input id="e" :disabled="v.on" :data-t="v.t" type="text">`,
+}
+
+var c14FormNames = func() []string {
+	var ns []string
+	for k := range c14Forms {
+		ns = append(ns, k)
+	}
+	sort.Strings(ns)
+	return ns
+}()
+
+var c14ReuseVals = map[string]map[string]any{
+	"A": {"on": true, "t": "x", "c": "red"},
+	"B": {"on": false, "t": "", "c": "blue"},
+	"C": {"on": true, "t": "y", "c": "green"},
+}
+
+var c14ReuseCtx = []string{"for", "slotfor", "slot2", "compfor", "comp2", "renders", "tmplfor"}
+
+func c14ElemString(out string, all bool) []string {
+	var res []string
+	for _, n := range htmlcmp.Find(htmlcmp.Parse(out), func(n *html.Node) bool { id, _ := htmlcmp.Attr(n, "id"); return id == "e" }) {
+		res = append(res, oneLine(htmlcmp.String(htmlcmp.Project([]*html.Node{n}, htmlcmp.Options{Values: true}))))
+	}
+	return res
+}
+
+func (c *c14Case) runReuse(ctx *core.Ctx) {
+	elem := c14Forms[c.Form]
+	var vals []any
+	for _, v := range c.Vals {
+		vals = append(vals, c14ReuseVals[v])
+	}
+	if len(vals) > 1 {
+		ctx.NonTrivial()
+	}
+	files := Files{
+		"elem.vuego":    elem,
+		"slotfor.vuego": `<ul><li v-for="x in list"><slot :v="x"></slot></li></ul>`,
+		"slot2.vuego":   `<div><slot></slot></div><section><slot></slot></section>`,
+	}
+	// reference: the element alone, once per value, each on a fresh engine
+	var want []string
+	for _, v := range vals {
+		ctx.Eval(1)
+		out, err := renderPage(files, "elem.vuego", map[string]any{"v": v})
+		if err != nil {
+			ctx.Violation("render-error", "reuse/"+c.Form, "alone", fmt.Sprintf("%q: %v", elem, err))
+			return
+		}
+		want = append(want, strings.Join(c14ElemString(out, true), "+"))
+	}
+	var got []string
+	var tpl string
+	ctx.Eval(1)
+	switch c.Ctx {
+	case "for":
+		tpl = `<div v-for="v in list">` + elem + `</div>`
+	case "tmplfor":
+		tpl = `<template v-for="v in list">` + elem + `</template>`
+	case "slotfor":
+		tpl = `<template include="slotfor.vuego" :list="list"><template v-slot="{ v }">` + elem + `</template></template>`
+	case "slot2":
+		// the same content used twice with the same value, then the next include with the next value
+		for i := range vals {
+			tpl += fmt.Sprintf(`<template :v="list[%d]"></template><template include="slot2.vuego">`, i) + elem + `</template>`
+		}
+	case "compfor":
+		tpl = `<div v-for="x in list"><template include="elem.vuego" :v="x"></template></div>`
+	case "comp2":
+		for i := range vals {
+			tpl += fmt.Sprintf(`<template include="elem.vuego" :v="list[%d]"></template>`, i)
+		}
+	}
+	if c.Ctx == "renders" {
+		// sequential renders on one engine
+		t := vuego.NewFS(files.FS())
+		v := vuego.NewVue(files.FS())
+		for _, val := range vals {
+			var b1, b2 bytes.Buffer
+			if err := t.Load("elem.vuego").Fill(map[string]any{"v": val}).Render(bg, &b1); err != nil {
+				ctx.Violation("render-error", "reuse/"+c.Form, c.Ctx, err.Error())
+				return
+			}
+			if err := v.Render(&b2, "elem.vuego", map[string]any{"v": val}); err != nil {
+				ctx.Violation("render-error", "reuse/"+c.Form, c.Ctx, err.Error())
+				return
+			}
+			g1, g2 := strings.Join(c14ElemString(b1.String(), true), "+"), strings.Join(c14ElemString(b2.String(), true), "+")
+			if g1 != g2 {
+				got = append(got, g1+" / Vue.Render: "+g2)
+			} else {
+				got = append(got, g1)
+			}
+		}
+	} else {
+		files["page.vuego"] = tpl
+		out, err := renderPage(files, "page.vuego", map[string]any{"list": vals})
+		if err != nil {
+			ctx.Violation("render-error", "reuse/"+c.Form, c.Ctx, fmt.Sprintf("tpl %q: %v", tpl, err))
+			return
+		}
+		got = c14ElemString(out, true)
+		if c.Ctx == "slot2" {
+			// two uses per value
+			var w2 []string
+			for _, w := range want {
+				if w == "" {
+					continue
+				}
+				w2 = append(w2, w, w)
+			}
+			want = w2
+		}
+	}
+	if c.Ctx != "slot2" && c.Ctx != "renders" {
+		var w2 []string
+		for _, w := range want {
+			if w != "" { // an element removed by v-if leaves no instance
+				w2 = append(w2, w)
+			}
+		}
+		want = w2
+	}
+	ctx.Outcome(strings.Join(got, ","))
+	if strings.Join(got, "\n") != strings.Join(want, "\n") {
+		ctx.Violation("reuse", c.Form+"/"+c.Ctx, "values-differ", fmt.Sprintf("element %q evaluated for values %v in context %s:\n got %q\nwant %q (the element alone on a fresh engine)\ntpl %q", elem, c.Vals, c.Ctx, got, want, tpl))
+	}
+}
+
 func (c *c14Case) Run(ctx *core.Ctx) {
+	if c.Part == "reuse" {
+		c.runReuse(ctx)
+		return
+	}
 	tpl, want, wantClass, wantStyle, defined, staticOrder := c.build()
 	if !defined {
 		ctx.Zone("falsy-binding-next-to-static-attribute")
@@ -292,11 +451,24 @@ func init() {
 		ID:    "C14",
 		Level: "exploration",
 		Rule: "one element carrying every combination of: static / interpolated title x title bound to 11 values of every truthiness (and v-bind:) x static class x 4 bound class forms (string, objects with bare/quoted/hyphenated keys and truthy/falsy/nil/undefined values) x static style x 3 bound style forms (camelCase object, custom property object, string) x v-show {none,true,truthy string,false,0} x directive attributes x 4 bracketed attributes (incl. a mustache value) x both source orders; " +
+			"plus a reuse part: 13 element forms (v-show with/without static and bound style, bound/interpolated title, :class object/string, :style over static style, v-if / v-else + v-show, v-html / v-text + v-show, boolean attribute) evaluated for every sequence of <=3 values out of 3 in 7 contexts where one source node is evaluated repeatedly (v-for on a parent, <template v-for>, scoped slot inside a component loop, slot used twice per include, component in a loop, component included repeatedly, successive renders on one engine through Load/Render and Vue.Render), oracle: every instance equals the element rendered alone on a fresh engine; " +
 			"oracle: reference attribute model (values, class token list, style property map, static order, no directive/internal attribute in the output, bracketed literal). non-trivial = all with defined semantics",
 		Bounds:      map[string]string{"quick": "full product (528k elements)", "thorough": "same"},
 		Assumptions: []string{"a falsy binding next to a static attribute of the same name is unconstrained", "relative order of style declarations and of bound attributes without a static counterpart is C10's subject"},
 		Decode:      core.DecodeAs[c14Case](),
 		Enumerate: func(tier string, emit func(core.Case)) {
+			valNames := []string{"A", "B", "C"}
+			for _, form := range c14FormNames {
+				for _, cx := range c14ReuseCtx {
+					tokenStrings(valNames, 3, func(tok []int) {
+						var vs []string
+						for _, i := range tok {
+							vs = append(vs, valNames[i])
+						}
+						emit(&c14Case{Part: "reuse", Form: form, Ctx: cx, Vals: vs})
+					})
+				}
+			}
 			tbs := append([]string{"none", "vbind"}, c14TitleVals...)
 			for _, ts := range []string{"none", "static", "interp"} {
 				for _, tb := range tbs {
